@@ -401,6 +401,7 @@ func (s *scenC07) requestFinishFilterC07() {
 //     assigned backend may be taken out of rotation by failing attempts of other requests (OnFail x
 //     FailNum, the real UpdateStatus path) and may then be brought back by its health checker (the two
 //     statements check() executes on recovery: SetRestart(true); SetAvail(true)).
+//
 // Oracle as VerifC07_connnum: in flight the assigned backend counts 1 and every other 0, after FinishReq
 // every backend counts 0, never negative.
 func VerifC07_finish() {
